@@ -82,7 +82,7 @@ package absnfs
 //@ func AbsfsNFS.UpdateTuningOptions
 //@ prop C24
 //@ requires n != nil && curTuning(n) != nil
-//@ modifies atomicptr, fields(TuningOptions), fields(TimeoutConfig), fields(LogConfig), fields(AttrCache), fields(DirCache), fields(WorkerPool), n.structuredLogger, locks, everything
+//@ modifies atomicptr, fields(TuningOptions), fields(TimeoutConfig), fields(LogConfig), fields(AttrCache), fields(DirCache), fields(WorkerPool), n.structuredLogger, locks, callback(fn)
 // whatever the callback does to the snapshot it is given, what gets published is serviceable
 //@ ensures [published-ok] tuningOK(curTuning(n))
 //@ ensures [policy-untouched] atomicptr[addr(n.policy)] == old(atomicptr[addr(n.policy)])
@@ -97,6 +97,11 @@ package absnfs
 //@ ensures [published] isnil(result) ==> curPolicy(n) != nil && fresh(curPolicy(n)) && curPolicy(n).ReadOnly == newPolicy.ReadOnly && curPolicy(n).Secure == newPolicy.Secure && curPolicy(n).Squash == newPolicy.Squash && curPolicy(n).MaxFileSize == newPolicy.MaxFileSize && curPolicy(n).EnableRateLimiting == newPolicy.EnableRateLimiting
 //@ ensures [tuning-untouched] atomicptr[addr(n.tuning)] == old(atomicptr[addr(n.tuning)])
 //@ ensures [unlocked] held(n.policyMu) == 0 && held(n.policyRWMu) == 0
+// C16: the new policy becomes visible only once the drain lock is write-held (no request is in flight),
+// and the limiter judging later requests is built from the new policy's limits
+//@ callassert atomic.Pointer.Store : [swap-under-write-lock] {C16} held(n.policyRWMu) == -1
+//@ ensures [limiter-follows-policy] {C16} isnil(result) && newPolicy.EnableRateLimiting && newPolicy.RateLimitConfig != nil ==> n.rateLimiter != nil && fresh(n.rateLimiter) && n.rateLimiter.config == *newPolicy.RateLimitConfig
+//@ ensures [limiter-off] {C16} isnil(result) && !newPolicy.EnableRateLimiting ==> n.rateLimiter == nil
 
 //@ func AbsfsNFS.UpdateExportOptions
 //@ prop C24
@@ -104,6 +109,9 @@ package absnfs
 // all-or-nothing: a rejected update leaves the entire configuration unchanged
 //@ ensures [all-or-nothing] !isnil(result) && n != nil ==> atomicptr[addr(n.tuning)] == old(atomicptr[addr(n.tuning)]) && atomicptr[addr(n.policy)] == old(atomicptr[addr(n.policy)])
 //@ ensures [accepted-serviceable] isnil(result) ==> tuningOK(curTuning(n))
+// an accepted update puts the requested access policy in force (C09: Secure and the other gates do not
+// silently fall back to their zero values)
+//@ ensures [policy-applied] {C24,C09} isnil(result) && n != nil ==> curPolicy(n) != nil && curPolicy(n).Secure == newOptions.Secure && curPolicy(n).ReadOnly == newOptions.ReadOnly && curPolicy(n).MaxFileSize == newOptions.MaxFileSize && curPolicy(n).EnableRateLimiting == newOptions.EnableRateLimiting
 
 //@ func AbsfsNFS.initAtomicOptions
 //@ prop C24
